@@ -1030,13 +1030,24 @@ func genAdaptiveMerge(prop string, seed uint64, count int, withRebuild bool) []g
 		cb := newCaseBuilder(caseID(prop+"adm", seed, i), r)
 		cb.u.fields = [][]byte{[]byte("_id"), []byte("t")}
 		k := r.Range(1, 2)
+		// every other case: deletions take a term's cardinality across a multiple of 1024
+		crossing := i%2 == 0
 		var ins []MergeIn
 		for j := 0; j < k; j++ {
 			n := adaptiveN(r)
+			if crossing {
+				n = 1024*r.Range(1, 2) + r.Range(1, 150)
+			}
 			if k == 2 {
 				n = n/2 + 10
 			}
 			docs := cb.adaptiveBatch(n, fmt.Sprintf("s%d-", j))
+			if crossing {
+				// the term x in every document
+				for d := range docs {
+					docs[d] = append(docs[d], FieldInst{Name: []byte("t"), Length: 1, Terms: []TermOcc{{Term: []byte("x"), Freq: 1}}})
+				}
+			}
 			api := "pub"
 			if r.Chance(1, 3) {
 				api = "hook"
@@ -1045,6 +1056,9 @@ func genAdaptiveMerge(prop string, seed uint64, count int, withRebuild bool) []g
 			// deletions that move a term's cardinality across a multiple of 1024
 			var drops []uint32
 			p := r.Range(1, 6)
+			if crossing {
+				p = r.Range(2, 4) // 1/6 .. 1/3 of ~1100 / ~2150 documents: crosses 1024 / 2048
+			}
 			for d := 0; d < n; d++ {
 				if r.Chance(p, 12) {
 					drops = append(drops, uint32(d))
